@@ -467,3 +467,32 @@ Definition tapped_row_lost (hb : Z) (m : rbmem) (g : geom) (c : Z * Z * (Z * Z *
   | TSrc y => negb (rb_holds hb m y)
   | _ => false
   end.
+
+(* ------------------------------------------------------------------ a convolution-like operator and its stripes *)
+(* how generate_high_level_commands_for_sched_op calls the transform for an operator with kernel/stride/padding
+   attributes, no read offset, no upscaling; and how create_padding is called for the resulting command *)
+Record convop := {
+  o_ifm : c4;            (* ifm.shape *)
+  o_oshape : c4;         (* the shape it writes: parent_op.write_shape, or the OFM shape *)
+  o_woff : c4;           (* parent_op.write_offset (zeros when None) *)
+  o_kh : Z; o_kw : Z; o_dy : Z; o_dx : Z; o_sy : Z; o_sx : Z;
+  o_pad : pad4;          (* attrs["explicit_padding"] *)
+  o_skirt : pad4;        (* attrs["skirt"] *)
+  o_bt : Z }.            (* npu_block_type *)
+
+Definition conv_tf (o : convop) (b : box) : tf_in :=
+  {| t_s := fst b; t_e := snd b; t_has_ss := true; t_sy := o_sy o; t_sx := o_sx o; t_skirt := o_skirt o;
+     t_ifm := o_ifm o; t_dot := is_dot_block (o_bt o); t_concat := o_woff o;
+     t_kdh := o_dy o * (o_kh o - 1) + 1; t_split := None; t_up := 1; t_wrap := false |}.
+
+Definition conv_hw_padding (o : convop) (b ib : box) (pt pb : Z) : pad4 :=
+  create_padding (o_bt o =? BT_VectorProduct) false (o_pad o)
+    (ch (fst b) =? ch (o_woff o)) (ch (o_woff o) + ch (o_oshape o) <=? ch (snd b)) pt pb None
+    (cw (o_ifm o)) (cw (fst ib)) (cw (snd ib)).
+
+Definition conv_geom_h (o : convop) : geom :=
+  {| g_in := ch (o_ifm o); g_out := ch (o_oshape o); g_k := o_kh o; g_d := o_dy o; g_s := o_sy o;
+     g_top := p_top (o_pad o); g_bottom := p_bottom (o_pad o); g_sk_t := p_top (o_skirt o); g_sk_b := p_bottom (o_skirt o) |}.
+Definition conv_geom_w (o : convop) : geom :=
+  {| g_in := cw (o_ifm o); g_out := cw (o_oshape o); g_k := o_kw o; g_d := o_dx o; g_s := o_sx o;
+     g_top := p_left (o_pad o); g_bottom := p_right (o_pad o); g_sk_t := p_left (o_skirt o); g_sk_b := p_right (o_skirt o) |}.
